@@ -94,9 +94,11 @@ def parseCall (tok : String) : Option (Op × Option Int) :=
         | _, _ => none
       op.map (·, ret)
 
-/-- the step function of the code the translator saw (`chewing_free` removing the registry entry or not) -/
+/-- the step function of the code the translator saw (`chewing_free` removing the registry entry or not; the user-phrase
+iterator owning a snapshot or borrowing the dictionary) -/
 def stepNow (c : Ctx) (op : Op) : Outcome (Ctx × Res) :=
-  if freeRemoves == 1 then step c op else stepOld c op
+  if userphraseIterBorrows == 1 then stepBorrow c op
+  else if freeRemoves == 1 then step c op else stepOld c op
 
 /-- replay a history: first disagreement / undefined step, or `ok` -/
 def replay (c : Ctx) (i : Nat) : List String → String
